@@ -129,6 +129,12 @@ func (c *fanCase) line(toks []string) (string, bool) {
 		close(co.stop)
 		time.Sleep(c.settle)
 		return "", false
+	case "fan.resume":
+		co := c.cons[toks[1]]
+		co.stop = make(chan struct{})
+		go co.loop()
+		time.Sleep(c.settle)
+		return "", false
 	case "fan.despawn":
 		label := toks[1]
 		co := c.cons[label]
